@@ -1009,6 +1009,36 @@ func (e *Exec) loopEnv(st *State, fr *Frame, li *loopInfo, phis []*ssa.Phi) *Spe
 			}
 		}
 	}
+	if _, ok := env.vars["idx"]; !ok {
+		// the canonical counting loop `for i := 0; i < len(x); i++` is the same
+		// loop as `for i := range x`: idx is i, coll is x
+		for _, in := range li.head.Instrs {
+			b, ok := in.(*ssa.BinOp)
+			if !ok || b.Op != token.LSS {
+				continue
+			}
+			ph, ok := b.X.(*ssa.Phi)
+			if !ok || ph.Block() != li.head || len(ph.Edges) != 2 {
+				continue
+			}
+			zero, step := false, false
+			for _, ed := range ph.Edges {
+				if c, ok := ed.(*ssa.Const); ok && c.Value != nil && c.Value.ExactString() == "0" {
+					zero = true
+				}
+				if a, ok := ed.(*ssa.BinOp); ok && a.Op == token.ADD && a.X == ph {
+					if c, ok := a.Y.(*ssa.Const); ok && c.Value != nil && c.Value.ExactString() == "1" {
+						step = true
+					}
+				}
+			}
+			if zero && step {
+				if v, ok := fr.env[ph]; ok && len(v.L) == 1 {
+					env.vars["idx"] = intV(v.L[0])
+				}
+			}
+		}
+	}
 	if r := e.iterOfLoop(fr, li); r != nil {
 		if it := fr.iters[r]; it != nil {
 			env.vars["idx"] = intV(it.pos)
